@@ -16,6 +16,7 @@ RULE = (
     "x anisotropy/rotation x conditioning layouts (random, cluster, collinear, lattice; n in {1..25}) x nugget / exact / scalar or "
     "per-point measurement error x pseudo-inverse on/off and type x mean/trend/normalizer x chunk sizes x mesh types; "
     "ill-conditioned systems (cond > 1e9) and non-representable data are discarded and counted"
+    " Also: kriging with fit_variogram=True (isotropic, directional with anisotropic start, lat-lon in three units) against the system of the object's own fitted model and the estimate-then-fit recipe; variable units 1e-10..1e6 (simple kriging); caller arrays overwritten after construction; drift rasters in C/Fortran order."
 )
 ASSUMPTIONS = [
     "O-KRIGE (gsverif/oracles/krige.py) solves the documented kriging system with numpy.linalg; the isotropic covariance is "
